@@ -27,7 +27,10 @@ BOUND = {"quick": "2 bases x {equilibrium, 3 amplitudes x 4 patterns, 2 scales} 
 ASSUMPTIONS = ["KKT tolerance 1e-9 x scale (default path); iterative back-ends: feasible and cost within (1+1e-4) ('lsq') / (1+1e-6) ('lsq_linear') of the certified optimum; scale = max(1,|A|max) x max(1,|b|max)",
                "'lsq_linear' is judged on consistent systems only (as the statement says)",
                "with allow_negatives=True a solution with negative tensions is only required to solve the square system exactly"]
-REQUIRED_TAGS = {"all": ["rawinv_only_last_negative", "rawinv_only_first_negative", "rawinv_only_multiplier_negative", "path:inv", "path:nnls-fallback", "path:lsq", "path:lsq_linear", "rhs:velocity", "unique", "square", "wide", "active_bound", "noisy", "fixture", "angle_limited", "defaults_spelled_out"]}
+REQUIRED_TAGS = {"all": ["rawinv_only_last_negative", "rawinv_only_first_negative", "rawinv_only_multiplier_negative", "path:inv", "path:nnls-fallback", "path:lsq", "path:lsq_linear", "rhs:velocity", "unique", "square", "wide", "active_bound", "noisy", "fixture", "angle_limited", "defaults_spelled_out", "initial_condition:zero_at", "initial_condition:previous_with_exact_zero"]}
+
+
+KW_MORE = [{"initial_condition": ["zero_at", 3]}, {"initial_condition": ["ramp"]}, {"initial_condition": ["previous", 0.3, 1]}, {"initial_condition": ["zero_every", 3, 0]}]
 
 
 def judge(r, method, allow_negatives, consistent, viol, known, tags):
@@ -125,7 +128,9 @@ def judge(r, method, allow_negatives, consistent, viol, known, tags):
             g = cert["g"]
             stuck = [i for i in range(len(z)) if z[i] <= 1e-4 and g[i] < -tau]
             free_ok = all(abs(g[i]) <= 1e-3 * scale for i in range(len(z)) if z[i] > 1e-3)
-            if method == "lsq" and cert["neg"] <= tau and stuck and free_ok:
+            # F20 as recorded costs 2e-4..1e-3 above the optimum; a stuck bound that costs an order of magnitude more is
+            # judged like any other non-optimal answer
+            if method == "lsq" and cert["neg"] <= tau and stuck and free_ok and R_x ** 2 - R_ref ** 2 <= 1e-2:
                 # F20: lmfit maps the bound min=0 through a transform whose derivative vanishes at the bound; a
                 # parameter that reaches 0 stays there although the optimum has it positive
                 known.append({"id": "F20", "stuck": stuck, "gradient": [float(g[i]) for i in stuck], "cost_excess_rel": (R_x ** 2 - R_ref ** 2) / max(R_ref ** 2, 1e-300)})
@@ -193,7 +198,8 @@ class Solver(ProductSystem):
                 "map": [["m", 0.05, 0.02], ["id"]],
                 "order": self._orders(base),
                 "limit": ["inf", "excluding"],
-                "kw": [None, {"use_std": False}, {"verbose": False, "use_std": False}]}      # options spelled out with their default values
+                "kw": [None, {"use_std": False}, {"verbose": False, "use_std": False}, {"initial_condition": ["ones"]}, {"initial_condition": ["zero_at", 0]},
+                       {"initial_condition": ["previous", 0.2, 1]}, {"initial_condition": ["previous", 0.1, 0]}] + (KW_MORE if self.bound > 3 else [])}      # options spelled out with their default values
 
     def _orders(self, base):
         """cell insertion orders (an environment choice): they decide which interface is the first / last unknown"""
@@ -226,6 +232,15 @@ class Solver(ProductSystem):
         od = cfg["order"]
         order = cids if od[0] == "id" else (cids[::-1] if od[0] == "rev" else cids[od[1]:] + cids[:od[1]])
         lab = {"order": order}
+        if cfg["kw"] and cfg["kw"].get("initial_condition", [None])[0] == "previous":
+            # the start vector is the answer of an earlier inference of the same tissue in another deformation (a plain list that
+            # usually contains exact zeros where that answer sat on the bound), as a user tracking a movie would pass it
+            _, amp_, pat_ = cfg["kw"]["initial_condition"]
+            prev = SC.solve_static(at, k=3, cmap=cm, method=None, post=SC.noise_post(amp_, pat_), allow_negatives=False, lab=lab)
+            cfg = dict(cfg, kw={"initial_condition": [float(x) for x in prev.forces]} if prev.exc is None else None)
+            tags.append("initial_condition:previous")
+            if prev.exc is None and any(x == 0 for x in prev.forces):
+                tags.append("initial_condition:previous_with_exact_zero")
         consistent = var[0] not in ("noise", "bump") and cfg["rhs"] == "static"
         if var[0] in ("noise", "bump"):
             tags.append("noisy")
@@ -243,8 +258,10 @@ class Solver(ProductSystem):
                 from checks import c10
                 lim = c10.angle_limit_for(at, cm) if len(at["C"]) >= 3 else np.inf
             r = SC.solve_static(at, k=3, cmap=cm, method=cfg["method"], allow_negatives=cfg["neg"], post=post, lab=lab, angle_limit=lim, solve_kwargs=cfg["kw"])
-        if cfg["kw"]:
+        if cfg["kw"] and "initial_condition" not in cfg["kw"]:
             tags.append("defaults_spelled_out")
+        if cfg["kw"] and "initial_condition" in cfg["kw"] and isinstance(cfg["kw"]["initial_condition"][0], str):
+            tags.append("initial_condition:" + cfg["kw"]["initial_condition"][0])
         if cfg["method"] == "lsq_linear" and not consistent:
             return {"viol": [], "tags": tags + ["lsq_linear_inconsistent_no_verdict"], "cls": "lsq_linear-inconsistent", "outdom": True}
         if r.exc is not None:
